@@ -241,6 +241,14 @@ func runC11(c *Ctx) {
 		} {
 			g := c.Fn(sub.fn)
 			sites := g.CallsDeep(sub.callee)
+			// under the client's lifetime context: the invalidation runs in a goroutine that takes the
+			// per-peer lock under this context, so a context cancelled by the caller right away (or a
+			// short timeout) lets a sender that is busy escape invalidation
+			for _, s := range sites {
+				call := s.Call()
+				okCtx := len(call.Args) == 2 && (eng.IsField(s.F.Info(), call.Args[0], "dht.IpfsDHT.ctx") || eng.IsField(s.F.Info(), call.Args[0], "dht/fullrt.FullRT.ctx"))
+				c.Check(K(s.F.Name, "OnDisconnect under the lifetime context"), call.Pos(), okCtx, "OnDisconnect is given the client's lifetime context", "context argument is "+short(call.Args[0]))
+			}
 			c.Check(K(g.Name, "calls OnDisconnect"), g.Pos(), len(sites) >= 1, "the subscriber forwards disconnects to the message sender", "no OnDisconnect call")
 			for _, s := range sites {
 				scf := s.F.CFG()
@@ -292,8 +300,31 @@ func runC11(c *Ctx) {
 	{
 		f := c.Fn(pmsFn + "SendRequest")
 		info := f.Info()
+		cf := f.CFG()
 		reads := f.Calls(pmsFn + "ctxReadMsg")
 		c.Check(K(f.Name, "reads reply"), f.Pos(), len(reads) == 1, "SendRequest reads the reply in one place", "found "+itoa(len(reads)))
+		// once the request was written, the function returns only with the reply read or the
+		// stream reset (a reply left unread on a kept stream answers the next request)
+		{
+			type ek struct {
+				b *eng.Block
+				i int
+			}
+			readOK := map[ek]bool{}
+			for _, e := range errEdges(cf, true, pmsFn+"ctxReadMsg") {
+				readOK[ek{e.B, e.Succ}] = true
+			}
+			resets, _ := cf.CallLocs("(github.com/libp2p/go-libp2p/core/network.MuxedStream).Reset", "(github.com/libp2p/go-libp2p/core/network.Stream).Reset")
+			wrote := errEdges(cf, true, pmsFn+"writeMsg")
+			c.Check(K(f.Name, "write success edge"), f.Pos(), len(wrote) >= 1 && len(readOK) >= 1, "the results of the write and of the read are tested", "no nil-error edge found")
+			for _, w := range wrote {
+				r, wit := cf.Reach(w.Start(), eng.LocSet(cf.Exits(true)...), eng.ReachOpt{
+					CutLoc:  eng.LocSet(resets...),
+					CutEdge: func(b *eng.Block, i int) bool { return readOK[ek{b, i}] },
+				})
+				c.CheckW(K(f.Name, "written request is read or reset"), w.Fact.Pos(), !r, "after a successful write every return lies behind a successful read of the reply or a reset of the stream", "a return is reachable with the request written, no reply read and the stream kept", cf.DescribePath(wit))
+			}
+		}
 		for _, r := range reads {
 			ok := false
 			detail := "reply argument is not a variable allocated inside the retry loop"
